@@ -13,6 +13,10 @@ outcome constructors; nothing here is a totalised default.
   C19  64663b5  endpoint.rs   `checked_sub == None => return false`              `pre_64663b5`
   C19  c679126  config.rs     `get_hook` recursed without a visited set          `getHookOld`
   C14  4551043  config.rs     8 of 15 `[global]` options merged, `env` dropped   `readCnfWith oldMergedOptions`
+  C19  537f12e  config.rs     no bound on the nesting of groups / includes, nor   `expandHookNoLimit`, `readCnfNoLimit`
+                              on the size of an expanded group (stack, memory)    (cost-counting twins: Model/ConfigDepth.lean)
+  C19  a9033b3  config.rs     the 4096 limit was on the RESULT of a group, not on `expandHookSizeLimit`
+                              the members visited (groups of empty groups: work)
   C02  527d672  storage.rs    no `.truncate(true)`                               `Storage.writeFile Trunc.no` (already there)
   C02  1d54e9b  storage.rs    no `flush` after `write_all`                       `writeFileNoFlush`
 -/
@@ -210,26 +214,28 @@ def includeLoopWith (opts : List GlobalOpt) (rec : Path → List Path → Except
     | .ok (add, loaded') => includeLoopWith opts rec ps (mergeCfgWith opts cfg add) loaded'
 
 open Config in
-/-- `Config.readCnf` with the merge lines as a parameter (same fuel discipline). -/
+/-- `Config.readCnf` with the merge lines as a parameter (same fuel discipline, same depth test: this
+variant differs from the current code in the merge block only). -/
 def readCnfWith {π : Type} (opts : List GlobalOpt) (files : Files π) (resolve : Path → π → List Path) :
-    Nat → Path → List Path → Except Err (Config × List Path)
-  | fuel, path, loaded =>
+    Nat → Nat → Path → List Path → Except Err (Config × List Path)
+  | fuel, depth, path, loaded =>
     match lookupFile files path with
     | none => .error (.fileNotFound path)
     | some fc =>
-      if path ∈ loaded then .ok (Config.empty, loaded)
+      if depth > maxIncludeDepth then .error (.includeTooDeep path)
+      else if path ∈ loaded then .ok (Config.empty, loaded)
       else
         match fuel with
         | 0 => .error .outOfFuel
         | fuel + 1 =>
-          includeLoopWith opts (readCnfWith opts files resolve fuel) (includePaths resolve path fc)
-            fc.toConfig (loaded ++ [path])
+          includeLoopWith opts (readCnfWith opts files resolve fuel (depth + 1))
+            (includePaths resolve path fc) fc.toConfig (loaded ++ [path])
 
 open Config in
 /-- `Config.loadTreeOrder` for a given merge block. -/
 def loadTreeOrderWith (opts : List GlobalOpt) (files : List (Nat × FileContent (List Nat))) (main : Nat) :
     Except Err (Config × List Nat) :=
-  match readCnfWith opts files (fun _ ps => ps) (loadFuel files) main [] with
+  match readCnfWith opts files (fun _ ps => ps) (loadFuel files) 0 main [] with
   | .error e => .error e
   | .ok (cfg, loaded) => .ok (dispatchGlobalEnv cfg, loaded)
 
@@ -244,6 +250,92 @@ def startUpOld (files : List (Nat × FileContent (List Nat))) (main : Nat) : Exc
   match loadTreeOrderOld files main with
   | .error e => .error e
   | .ok (cfg, _) => build cfg
+
+/-! ## C19 (C14) / 537f12e — `get_hook_rec` and `read_cnf` without limits (config.rs:99-133, 744-790 before)
+
+The code before 537f12e: the visited set of c679126 is there (cycles are refused); the tests on
+`MAX_HOOK_GROUP_DEPTH` and `MAX_INCLUDE_DEPTH` and the budget of `MAX_HOOK_GROUP_MEMBERS` visits are
+not.  These are the definitions `Config.expandHook` / `Config.readCnf` had until then; the fuel is the
+same proof device.  What they lack is not visible in their RESULT: an acyclic chain of n groups / files
+recurses n deep (native stack) and n doubling groups expand to 2^n hooks (memory) — made explicit by
+the cost-counting twins `ConfigDepth.expandHookD .none` / `readCnfD .none` (Model/ConfigDepth.lean),
+which return the same results (`Props.C19Depth.expandHookD_none_result`, `readCnfD_none_result`). -/
+
+open Config in
+/-- `get_hook_rec` before 537f12e (config.rs:99-133 then): the member loop is the plain
+`for … { ret.append(&mut self.get_hook_rec(hook_name, parents)?) }`, i.e. `Config.expandNames`. -/
+def expandHookNoLimit (cfg : Config) : Nat → List String → String → Except Err (List Hook)
+  | fuel, parents, name =>
+    match findHook cfg name with
+    | some h => .ok [h]
+    | none =>
+      match findGroup cfg name with
+      | none => .error (.hookNotFound name)
+      | some g =>
+        if name ∈ parents then .error (.groupCycle name)
+        else
+          match fuel with
+          | 0 => .error .outOfFuel
+          | fuel + 1 => expandNames (expandHookNoLimit cfg fuel (parents ++ [name])) g.hooks
+
+open Config in
+/-- `Config::get_hook` before 537f12e. -/
+def getHookNoLimit (cfg : Config) (name : String) : Except Err (List Hook) :=
+  expandHookNoLimit cfg (expandFuel cfg) [] name
+
+open Config in
+/-- `read_cnf` before 537f12e (config.rs:744-790 then): no `depth` argument. -/
+def readCnfNoLimit {π : Type} (files : Files π) (resolve : Path → π → List Path) :
+    Nat → Path → List Path → Except Err (Config × List Path)
+  | fuel, path, loaded =>
+    match lookupFile files path with
+    | none => .error (.fileNotFound path)
+    | some fc =>
+      if path ∈ loaded then .ok (Config.empty, loaded)
+      else
+        match fuel with
+        | 0 => .error .outOfFuel
+        | fuel + 1 =>
+          includeLoop (readCnfNoLimit files resolve fuel) (includePaths resolve path fc) fc.toConfig
+            (loaded ++ [path])
+
+/-! ## C19 / a9033b3 — `get_hook_rec` of 537f12e: depth test, and a test on the size of the RESULT
+
+config.rs:99-143 of 537f12e: no budget; instead, after each `ret.append(&mut h)` of the member loop,
+`if ret.len() > crate::MAX_HOOKS_PER_GROUP { return Err("…hook group contains too many hooks") }` (the
+constant had the value that `MAX_HOOK_GROUP_MEMBERS` has now).  Members that expand to NOTHING (an
+empty group, groups of empty groups) are never counted: 31 nested groups naming the next one three
+times and ending in an empty group cost 3^31 calls (`Props.C19Depth.sizelimit_work_exponential`). -/
+
+open Config in
+/-- The member loop of 537f12e for the group `gname`; `acc` is `ret`. -/
+def groupLoopSizeLimit (gname : String) (rec : String → Except Err (List Hook)) :
+    List String → List Hook → Except Err (List Hook)
+  | [], acc => .ok acc
+  | n :: ns, acc =>
+    match rec n with
+    | .error e => .error e
+    | .ok hs =>
+      if (acc ++ hs).length > maxHookGroupMembers then .error (.groupTooBig gname)
+      else groupLoopSizeLimit gname rec ns (acc ++ hs)
+
+open Config in
+/-- `get_hook_rec` of 537f12e. -/
+def expandHookSizeLimit (cfg : Config) : Nat → List String → String → Except Err (List Hook)
+  | fuel, parents, name =>
+    match findHook cfg name with
+    | some h => .ok [h]
+    | none =>
+      match findGroup cfg name with
+      | none => .error (.hookNotFound name)
+      | some g =>
+        if name ∈ parents then .error (.groupCycle name)
+        else if parents.length ≥ maxHookGroupDepth then .error (.groupTooDeep name)
+        else
+          match fuel with
+          | 0 => .error .outOfFuel
+          | fuel + 1 =>
+            groupLoopSizeLimit name (expandHookSizeLimit cfg fuel (parents ++ [name])) g.hooks []
 
 /-! ## C02 / 1d54e9b — `write_file` without `flush` (storage.rs:194-243 before) -/
 
